@@ -64,7 +64,7 @@ def main():
         d = os.path.join(base, sub)
         if os.path.isdir(d):
             for f in sorted(os.listdir(d)):
-                if f.endswith('.lean') and not (sub == 'Model' and f == 'Dispatch.lean'):
+                if f.endswith('.lean') and not (sub == 'Model' and f == 'Dispatch.lean') and not f.endswith('Big.lean'):
                     mods.append('import AlgopyVerif.%s.%s' % (sub, f[:-5]))
     open(os.path.join(HERE, 'lean', 'AlgopyVerif.lean'), 'w').write('\n'.join(mods) + '\n')
     print('wrote MANIFEST.json with %d checks, %d not_applicable' % (len(checks), len(na)))
